@@ -279,6 +279,10 @@ def _robust_case(arg):
     extra_a = 0.8
     dens = core + (rho_gauss(g.points, CENTRE, extra_a) if kind == "core+smooth" else 0.0)
     ref = vcore + (v_gauss(q, CENTRE, extra_a) if kind == "core+smooth" else 0.0)
+    if kind == "smooth":
+        # a smooth density without any core: the residual handed to the numerical solver is (density - core model)
+        dens = rho_gauss(g.points, CENTRE, extra_a)
+        ref = v_gauss(q, CENTRE, extra_a)
     snap = dens.copy()
     res.count(len(q))
     try:
@@ -301,6 +305,21 @@ def _robust_case(arg):
                       f"({'exact cancellation expected' if kind == 'core' else 'tolerance 1e-3'})", case)
     else:
         res.maximum(f"robust_err:{kind}", float(err.max()))
+    if kind == "smooth":
+        # "agrees with the plain solver on smooth densities"
+        from grid.poisson import solve_poisson_bvp
+
+        res.count(len(q))
+        with warnings.catch_warnings():
+            warnings.simplefilter("ignore")
+            with np.errstate(all="ignore"):
+                np.random.seed(seed)
+                plain = np.asarray(solve_poisson_bvp(g, dens, tf)(q), dtype=float)
+        dev = float(np.max(np.abs(plain - got)))
+        if _gt(dev, 2 * TOL_BVP):
+            res.violation("robust:smooth:differs-from-plain-solver", f"{case}: robust and plain solver differ by {dev:.2e} on a smooth density", case)
+        else:
+            res.maximum("robust_vs_plain", dev)
     return res.as_dict()
 
 
@@ -434,6 +453,7 @@ def run(ctx):
     for z in (1, 8):
         for split2 in (False, True):
             jobs.append(("rob", ("core+smooth", z, split2, ctx.seed)))
+        jobs.append(("rob", ("smooth", z, z == 8, ctx.seed)))
     jobs += [("mol", (10.0, ctx.seed, 1e-3)), ("mol", (4.0, ctx.seed, 1e-3))]
     if ctx.thorough:
         jobs += [("mol", (1.4, ctx.seed)), ("mol", (1.4, ctx.seed, 1e-3)), ("mol", (2.5, ctx.seed, 1e-3))]
